@@ -1,0 +1,1 @@
+//! Verification facade (cfg-gated): stores family.  See `crate::verif`.
